@@ -289,7 +289,8 @@ theorem C17_tu_documented_accepted_iff_all_identical (lang : Lang) (o₁ : OptSe
 example :
     let o₁ := defaultsOf (Gen.domain .cpp)
     let o₂ := o₁.map fun kv => if kv.1 = "target_endianness" then (kv.1, OptVal.str "little") else kv
-    togetherTU .cpp false (nameOf (Gen.domain .cpp)) o₁ [o₁, o₂] = some [[], [.mismatch "target_endianness"]] ∧
+    togetherTU .cpp false (nameOf (Gen.domain .cpp)) o₁ [o₁, o₂]
+      = some [[], [.mismatch (nameOf (Gen.domain .cpp) "target_endianness")]] ∧
     acceptedTU .cpp false (nameOf (Gen.domain .cpp)) o₁ [o₁, o₂] = false := by
   decide +kernel
 
@@ -319,11 +320,12 @@ example :
     let o₂ := o₁.map fun kv => if kv.1 = "target_endianness" then (kv.1, OptVal.str "little") else kv
     Documented (Gen.domain .c) o₂ ∧
     together .c false (nameOf (Gen.domain .c)) o₁ o₂
-      = some [.mismatch "NUNAVUT_SUPPORT_LANGUAGE_OPTION_TARGET_ENDIANNESS"] := by
+      = some [.mismatch (nameOf (Gen.domain .c) "target_endianness")] := by
   decide +kernel
 
 /-- A multi-option difference in C++ (`c++17-pmr` types against the default support header): one diagnostic per
-differing option, in the order of the type header. -/
+differing option, in the order of the type header.  Names are taken from the generated table (`key | id` strops:
+since repo commit ab91152 the key `std` is rendered `_std` on both sides). -/
 example :
     let o₁ := defaultsOf (Gen.domain .cpp)
     let o₂ := o₁.map fun kv =>
@@ -333,7 +335,7 @@ example :
       else kv
     Documented (Gen.domain .cpp) o₂ ∧
     together .cpp false (nameOf (Gen.domain .cpp)) o₁ o₂
-      = some [.mismatch "std", .mismatch "std_flavor", .mismatch "allocator_include"] := by
+      = some (["std", "std_flavor", "allocator_include"].map fun k => .mismatch (nameOf (Gen.domain .cpp) k)) := by
   decide +kernel
 
 /-- A type header asserting a key the support header does not define. -/
